@@ -92,8 +92,7 @@ Section Agree.
     pair_in (set_lb E true, set_rb E true) (c_set_brackets C) &&
     pair_in (set_lb E false, set_rb E false) (c_set_brackets C) &&
     forallb (fun c => str_in c (gen_copulas E)) (c_copulas C) &&
-    ncs_eqb (name_char E) (l_is_identifier L) &&
-    copula_lookahead_len_guard.
+    ncs_eqb (name_char E) (l_is_identifier L).
 
   (* atom prefixes: the lexical dictionary tries its keywords in descending code-point order, the
      enum parser in the order of its arm list.  A keyword q the dictionary tries before the prefix
